@@ -26,9 +26,10 @@ inline Parked parked(int *counter) { for (;;) { (*counter)++; co_await std::susp
 
 struct Op { uint8_t code, a, b; };
 struct Prog { std::vector<Op> ops; };
-inline Prog decode(hz::Reader &r) { Prog p; unsigned n = 0; while (r.more() && n < 40) { Op o; o.code = (uint8_t)r.mod(10); o.a = r.u8(); o.b = r.u8(); p.ops.push_back(o); n++; } return p; }
+inline Prog decode(hz::Reader &r) { Prog p; unsigned n = 0; while (r.more() && n < 40) { Op o; o.code = (uint8_t)r.mod(11); o.a = r.u8(); o.b = r.u8(); p.ops.push_back(o); n++; } return p; }
 static const char *opn[] = {"new future/promise pair", "coroutine waiter", "callback awaiter", "resolve(value)", "resolve(exception|drop)", "destroy pair", "mutex episode (contend + hand over)",
-                            "suspend point episode (<=3 handles: merge, move, pop, clear)", "step synchronous generator", "blocking wait (ready future | waiter thread)"};
+                            "suspend point episode (<=3 handles: merge, move, pop, clear)", "step synchronous generator", "blocking wait (ready future | waiter thread)",
+                            "coroutine blocks in force_wait() while another coroutine is queued on its thread; a second thread resolves"};
 inline std::string describe(const Prog &p) {
     hz::Desc d; d << (unsigned)p.ops.size() << " ops (program executed twice inside the measured region):";
     for (auto &o : p.ops) { d << " " << opn[o.code]; if (o.code == 6) d << "[" << (unsigned)(2 + o.a % 3) << " lockers]"; }
@@ -53,6 +54,7 @@ struct World {
     int parked_count[3] = {0, 0, 0};
     long gen_sum = 0; int gen_steps = 0;
     unsigned stats_waiters = 0, stats_handover = 0; int thread_waiters = 0;
+    int forcers = 0, forcers_done = 0, bystanders = 0;
 };
 
 inline cocls::with_allocator<Arena, cocls::async<void>> co_waiter(Arena &, World *w, cocls::future<int> *f) {
@@ -63,6 +65,14 @@ inline cocls::with_allocator<Arena, cocls::async<void>> locker(Arena &, World *w
     cocls::mutex::ownership own = co_await w->mx.lock();
     w->grants++;
     own.release();
+}
+inline cocls::with_allocator<Arena, cocls::async<void>> bystander(Arena &, World *w) { w->bystanders++; co_return; }
+// blocks its thread inside a coroutine (force_wait is the documented way) with a non-empty ready queue behind it
+inline cocls::with_allocator<Arena, cocls::async<void>> forcer(Arena &a, World *w, cocls::future<int> *f) {
+    bystander(a, w).detach();
+    try { f->force_wait(); } catch (...) {}
+    w->forcers_done++;
+    co_return;
 }
 inline cocls::generator<int> counting_gen() { for (int i = 1;; i++) co_yield i; }
 
@@ -104,6 +114,13 @@ inline void exec(World &w, const Prog &prog, std::vector<Parked> &parks, cocls::
                 c.clear();
             } break;
             case 8: { bool more = (bool)gen.next(); if (more) { w.gen_sum += gen.value(); w.gen_steps++; } } break;
+            case 10: if (p.f && !p.resolved && w.forcers < 2) {
+                w.forcers++; w.stats_waiters++;
+                cocls::promise<int> pr(std::move(p.p)); p.resolved = true;
+                std::thread t([&pr] { hz::upoint(); pr(9); });
+                forcer(w.arena, &w, p.f).detach();
+                t.join();
+            } break;
             default: {
                 if (p.f && p.resolved) { try { p.f->wait(); } catch (...) {} }
                 else if (p.f && w.thread_waiters++ < 1) {
@@ -141,6 +158,7 @@ inline void run(hz::Reader &r) {
         HZ_CHECK(total == 0, "%lu dynamic allocations after the program was executed a second time", total);
         HZ_CHECK(w->co_waiters_done == w->co_waiters_started, "%d of %d coroutine waiters finished", w->co_waiters_done, w->co_waiters_started);
         HZ_CHECK(w->cb_fired == w->cb_registered, "%d of %d callback awaiters fired", w->cb_fired, w->cb_registered);
+        HZ_CHECK(w->forcers_done == w->forcers && w->bystanders == w->forcers, "%d of %d force_wait coroutines finished, %d queued bystanders ran", w->forcers_done, w->forcers, w->bystanders);
         HZ_CHECK(w->grants == w->lockers, "%d of %d mutex requests granted", w->grants, w->lockers);
         waiters = w->stats_waiters; handover = w->stats_handover;
         for (auto &p : parks) p.h.destroy();
@@ -157,8 +175,8 @@ namespace hz {
 static const Info I = {
     "C20", 1, 121, 100000, true, true,
     "stateful byte-decoded programs (rapidcheck), up to 40 ops over {create future/promise pair, add coroutine waiter (frame in a pre-allocated arena via with_allocator), add callback awaiter, resolve with value / exception / drop, destroy pair, "
-    "mutex episode (owner + 2..4 contending lockers handed over one by one), suspend point episode with <=3 handles (construct, <<, move, merge, pop, clear), step a synchronous generator, blocking wait on a ready future or by a waiter thread}; "
-    "the whole program runs inside a measured region of the counting global operator new (thread creation and the ready queue's node storage are exempt by construction) and is then executed a second time (metamorphic doubling). "
+    "mutex episode (owner + 2..4 contending lockers handed over one by one), suspend point episode with <=3 handles (construct, <<, move, merge, pop, clear), step a synchronous generator, blocking wait on a ready future or by a waiter thread, a coroutine blocking in force_wait() with another coroutine queued behind it while a second thread resolves}; "
+    "the whole program runs inside a measured region of the counting global operator new (thread creation and the node storage of each thread's ready queue - the first deque of handles a thread constructs - are exempt by construction; any other container is counted) and is then executed a second time (metamorphic doubling). "
     "Oracle: operator new count inside the region == 0 after the first and after the second execution; all waiters finished, all lock requests granted. Non-trivial = >=1 waiter and >=1 contended mutex hand-over; distinct = hash(decoded program, executed switch trace).",
     c20::class_names, 4, c20::counter_names, 2};
 const Info &info() { return I; }
